@@ -176,6 +176,19 @@ func isErrorType(t types.Type) bool {
 	return ok && n.Obj().Pkg() == nil && n.Obj().Name() == "error"
 }
 
+// isMultiUnwrapper: an interface whose only method is Unwrap() []error
+func isMultiUnwrapper(it *types.Interface) bool {
+	if it.NumMethods() != 1 || it.Method(0).Name() != "Unwrap" {
+		return false
+	}
+	sig := it.Method(0).Type().(*types.Signature)
+	if sig.Params().Len() != 0 || sig.Results().Len() != 1 {
+		return false
+	}
+	sl, ok := sig.Results().At(0).Type().(*types.Slice)
+	return ok && isErrorType(sl.Elem())
+}
+
 func (U *Universe) isNodeIface(it *types.Interface) bool {
 	for i := 0; i < it.NumMethods(); i++ {
 		m := it.Method(i)
@@ -218,6 +231,10 @@ func (U *Universe) sortOf(t types.Type) string {
 		case *types.Interface:
 			if U.isNodeIface(u) {
 				return "Node"
+			}
+			if isMultiUnwrapper(u) {
+				// interface{ Unwrap() []error }: of the error values modelled, only joined errors implement it
+				return "Err"
 			}
 			U.extraSorts["Any"] = true
 			return "Any"
